@@ -2,6 +2,7 @@ import CogentModel.Json
 import CogentModel.Model.IndelMap
 import CogentModel.Model.FMap
 import CogentModel.Model.FMapOps
+import CogentModel.Model.FMapPos
 import CogentModel.Spec.Gapped
 open CogentModel CogentModel.IndelMap
 
@@ -191,6 +192,7 @@ def handle (cmd : String) (j : J) : Except String J :=
     let m ← parseFMap (← j.get "m")
     let o ← parseFMap (← j.get "o")
     let ks ← (← j.get "ks").toListOf J.toInt
+    let ps ← (← j.get "ps").toListOf J.toInt
     pure (J.obj [
       ("mul", J.arr (ks.map fun k => fmapJ (FMap.fmMul m k))),
       ("div", J.arr (ks.map fun k => fexJ fmapJ (FMap.fmTruediv m k))),
@@ -198,7 +200,12 @@ def handle (cmd : String) (j : J) : Except String J :=
       ("without_gaps", fmapJ (FMap.withoutGaps m)),
       ("coords", pairsJ (FMap.getCoordinates m)),
       ("start", J.num (FMap.fmStart m)), ("end", J.num (FMap.fmEnd m)),
-      ("covering", fexJ fmapJ (FMap.coveringSpan m))])
+      ("covering", fexJ fmapJ (FMap.coveringSpan m)),
+      ("offsets", J.arr ((FMap.offsets m).map J.num)), ("len", J.num (FMap.len m)),
+      ("useful", J.bool (FMap.useful m)), ("complete", J.bool (FMap.complete m)),
+      ("abs", J.arr (ps.map fun p => fexJ J.num (FMap.absolutePosition m p))),
+      ("rel", J.arr (ps.map fun p => fexJ J.num (FMap.relativePosition m p))),
+      ("zeroed", fexJ fmapJ (FMap.zeroed m))])
   | _ => throw s!"unknown command {cmd}"
 
 def main : IO Unit := driverLoop handle
